@@ -101,14 +101,6 @@ Definition check_val (tol : Qc) (c : valcase) : list nat :=
   (if gvclose tol (v_got c) (colmajor_to_flat (v_M c) (v_cols c)) then [] else [1%nat]).
 
 (* ---------------- setter sequences on a bare LinearOperator ---------------- *)
-Inductive sop := SShape (m n : nat) | SDims (d : list nat) | SDimsd (d : list nat).
-Fixpoint run_sops (l : list sop) (st : ostate) : option ostate :=
-  match l with
-  | [] => Some st
-  | SShape m n :: l' => bind (set_shape (m, n) st) (run_sops l')
-  | SDims d :: l' => bind (set_dims d st) (run_sops l')
-  | SDimsd d :: l' => bind (set_dimsd d st) (run_sops l')
-  end.
 (* observed: None = ValueError in a setter; Some None = getters raise AttributeError; Some (Some a) = attributes read back *)
 Record setcase := { s_id : nat; s_ops : list sop; s_res : option (option attrs) }.
 Definition check_set (c : setcase) : list nat :=
